@@ -336,6 +336,12 @@ Section World.
     intros [W A N1 N2]. split; [|split; assumption]. rewrite W. apply map_remask_id. exact A.
   Qed.
 
+  Lemma ksame_sym k1 k2 : ksame C k1 k2 -> ksame C k2 k1.
+  Proof.
+    intros S. destruct (ksame_watches k1 k2 S) as [W [N1 N2]]. destruct S as [_ Am _ _].
+    apply ksame_intro; [congruence | | congruence | congruence]. intros w Hw. apply Am. rewrite <- W. exact Hw.
+  Qed.
+
   Section Step.
     Variables (t t' : fs) (o : op) (r : rstate) (k : kst).
     Hypothesis HW : wi r k.
@@ -572,5 +578,58 @@ Section Two.
     destruct HE as [E1 E2]. destruct (settle_now_twin r2 k2 k3 H3) as [S1 S2]. split.
     - rewrite E1. exact S1.
     - eapply ksame_then_kwt; eassumption.
+  Qed.
+
+  (* ---------------------------------------------------------------- one drained operation, real states *)
+  Hypothesis Hfix : c_fix_moveout C = true.
+
+  (* the two real states have twin normal forms *)
+  Definition tw (rU : rstate) (kU : kst) (rF : rstate) (kF : kst) : Prop :=
+    fst (nform C rU kU) = fst (nform C' rF kF) /\ kwt WATCHDOG_ALL M' (snd (nform C rU kU)) (snd (nform C' rF kF)).
+
+  Lemma tidy_twin rU kU rF kF : tw rU kU rF kF -> tidy (fst (nform C rU kU)) (snd (nform C rU kU)) ->
+    tidy (fst (nform C' rF kF)) (snd (nform C' rF kF)).
+  Proof.
+    intros [E T] [T1 T2]. unfold tidy. rewrite <- E, (wds_kwt _ _ _ _ T). split; assumption.
+  Qed.
+
+  Theorem lag_step full w kU rU kF rF o w1 kU1 rU1 evs :
+    wi C rU kU -> wi C' rF kF -> tw rU kU rF kF -> tidy (fst (nform C rU kU)) (snd (nform C rU kU)) ->
+    run_one None C full w kU rU o = Some (w1, kU1, rU1, evs) ->
+    exists kF1 rF1, run_one F C' full w kF rF o = Some (w1, kF1, rF1, filter (acc F) evs) /\
+                    wi C rU1 kU1 /\ wi C' rF1 kF1 /\ tw rU1 kU1 rF1 kF1.
+  Proof.
+    intros WU WF [TE TK] TU Hrun. pose proof (tidy_twin _ _ _ _ (conj TE TK) TU) as TF.
+    unfold run_one in *. destruct (apply_op w o) as [w'|]; [|discriminate].
+    destruct (read_batch C (w_fs w') (rU, kdrained (kernel_op kU (w_fs w) o), []) (k_queue (kernel_op kU (w_fs w) o)))
+      as [[[rU1' kU1'] rawsU]|] eqn:HrdU; [|discriminate].
+    inversion Hrun; subst w1 kU1 rU1 evs; clear Hrun.
+    (* unfiltered: real -> normal *)
+    destruct (norm_fwd C (w_fs w) (w_fs w') o rU kU WU TU _ _ _ HrdU) as [rnU1 [knU1 [HnU EU]]].
+    (* normal unfiltered -> normal filtered *)
+    assert (Hidle : pending_of C (fst (nform C rU kU)) = false) by apply settle_now_not_pending.
+    destruct (norm_twin (w_fs w) (w_fs w') o (fst (nform C rU kU)) (snd (nform C rU kU)) (snd (nform C' rF kF))
+                        rnU1 knU1 rawsU Hidle TK eq_refl eq_refl HnU) as [rnF1 [knF1 [HnF [SE SK]]]].
+    rewrite TE in HnF.
+    (* normal filtered -> real filtered (no crash), and back to relate the final states *)
+    destruct (norm_bwd C' (w_fs w) (w_fs w') o rF kF WF TF Hfix _ _ _ HnF) as [rF1 [kF1 [rawsF HrdF]]].
+    destruct (norm_fwd C' (w_fs w) (w_fs w') o rF kF WF TF _ _ _ HrdF) as [rnF1' [knF1' [HnF' EF]]].
+    rewrite HnF in HnF'. inversion HnF'; subst rnF1' knF1' rawsF. clear HnF'.
+    rewrite HrdF. exists kF1, rF1. split; [|split; [|split]].
+    - f_equal. f_equal. unfold C'. rewrite group_batch_with_mask. cbn [with_mask c_recursive c_root].
+      assert (Hsh : Forall (fun x => kshaped (r_mask x)) rawsU).
+      { destruct (read_batch_masks _ _ _ _ _ _ _ _ _ HrdU) as [new [E Hn]]. cbn [app] in E. subst new.
+        eapply Forall_impl; [|exact Hn]. intros x [[e [He ->]]|Hx]; [|apply sim_raw_shaped; exact Hx].
+        assert (QS : qshaped (kernel_op kU (w_fs w) o)).
+        { apply kernel_op_shaped. intros e0 He0. left. destruct WU as [[_ [[_ J2] _]] _ _ _]. apply (J2 e0 He0). }
+        apply QS. exact He. }
+      unfold kp. rewrite (group_batch_handed C M' (kmask_events F rec) (kmask_nodir F rec) (whole_kmask F C) rawsU Hsh).
+      rewrite emit_all_f_none. apply emit_all_handed.
+    - eapply (wi_step C (w_fs w) (w_fs w') o rU kU WU). exact HrdU.
+    - eapply (wi_step C' (w_fs w) (w_fs w') o rF kF WF). exact HrdF.
+    - destruct EU as [EU1 EU2]. destruct EF as [EF1 EF2]. unfold tw, nform. cbn [fst snd]. split.
+      + rewrite EU1, SE. symmetry. exact EF1.
+      + apply kwt_drained. eapply ksame_then_kwt; [exact EU2|].
+        eapply kwt_then_ksame; [exact SK|]. apply ksame_sym. exact EF2.
   Qed.
 End Two.
